@@ -81,10 +81,16 @@ RULE = ('one PRNG; sets: every generator (8) x 2-9 RDMs x 3-10 conditions, group
         'quarter of the extra fit_regress models use a fragile fitter (the library fitter, then LinAlgError on '
         'about every second training set, as a function of the training object alone); a LinAlgError of a '
         'fitter is recorded per call (same training view => same outcome) and does not end the run; every '
-        'perturbation is asserted to leave the view it must keep bit-identical')
+        'perturbation is asserted to leave the view it must keep bit-identical; round 7: for every generator '
+        'and for crossval, objects whose split axis holds 21-40 groups of 2-3 members (adjacent, interleaved or '
+        'shuffled) labelled by strings, floats or integers spread over 1000..900000, lists or ndarrays, with '
+        'fold counts / group sizes that make a selection by >= 20 values (both axes large at once for the '
+        'two-axis generators alone); the folds of a direct crossval case are also judged by the first sentence')
 BRANCHES = ['gen:k_fold', 'gen:k_fold_rdm', 'gen:k_fold_pattern', 'gen:of_k_rdm', 'gen:of_k_pattern',
             'gen:random', 'gen:loo_rdm', 'gen:loo_pattern', 'random:true', 'random:false',
             'grouped:rdm', 'grouped:pattern', 'copies:rdm', 'copies:pattern', 'labels:str',
+            'labels:str-many', 'labels:float-many', 'labels:sparse-int-many',      # round 7
+            'cv:labels-many',
             'k:one', 'k:all', 'k:default', 'uneven', 'exc:AssertionError', 'exc:ZeroDivisionError',
             'exc:IndexError', 'cv:direct', 'cv:boot', 'cv:weighted', 'cv:select', 'cv:fixed',
             'cv:perturbed', 'concat',
@@ -111,8 +117,9 @@ BRANCHES = ['gen:k_fold', 'gen:k_fold_rdm', 'gen:k_fold_pattern', 'gen:of_k_rdm'
             # round 5: a fitter that fails (LinAlgError) on some training sets - judged call by call
             'cv:fitter_raised', 'cv:fit_failure_other_fold', 'cv:fitter_failure_propagated']
 ASSUMPTIONS = [
-    'descriptor values are mapped to natural-number codes (non-negative ints as themselves, strings '
-    'by rank) before they reach the model; np.unique orders ints numerically and strings by code point',
+    'descriptor values are mapped to natural-number codes (non-negative ints as themselves, floats by numeric '
+    'rank, strings by rank) before they reach the model; np.unique orders ints and floats numerically and '
+    'strings by code point',
     'the non-interference experiment compares θ and scores bit-for-bit; numpy / LAPACK are '
     'deterministic for identical inputs in one process',
     'a numpy.linalg.LinAlgError raised inside a fitter is an outcome of that one fit (whether a fitter solves a '
@@ -149,10 +156,22 @@ def _axis(case, which):
     return list(idx), by          # by is 'index' or None (pattern default of sets_of_k_pattern)
 
 
+def _is_int(v):
+    return isinstance(v, (int, np.integer)) and not isinstance(v, bool)
+
+
+def _is_float(v):
+    return isinstance(v, (float, np.floating))
+
+
 def _codes(values):
-    """descriptor value -> Nat code (order preserving)"""
-    if all(isinstance(v, (int, np.integer)) and not isinstance(v, bool) for v in values):
+    """descriptor value -> Nat code (order preserving: np.unique orders ints and floats numerically,
+    strings by code point)"""
+    if all(_is_int(v) for v in values):
         return {int(v): int(v) for v in values}
+    if all(_is_int(v) or _is_float(v) for v in values):      # float labels (round 7): rank in numeric order
+        u = sorted(set(float(v) for v in values))
+        return {v: i for i, v in enumerate(u)}
     u = sorted(set(str(v) for v in values))
     return {v: i for i, v in enumerate(u)}
 
@@ -162,9 +181,11 @@ def _code_of(cmap, v):
     out something stale or foreign) gets a code outside the map, so that the model rejects it and the case
     is judged by the oracle instead of crashing the harness"""
     import zlib
-    k = int(v) if isinstance(v, (int, np.integer)) else str(v)
+    k = int(v) if _is_int(v) else float(v) if _is_float(v) else str(v)
     if k in cmap:
         return cmap[k]
+    if _is_int(v) and float(k) in cmap and any(isinstance(c, float) for c in cmap):
+        return cmap[float(k)]
     return 10 ** 6 + zlib.crc32(str(k).encode()) % 1000
 
 
@@ -1365,6 +1386,38 @@ def compare(case, impl, model):
 
 # ------------------------------------------------------------------ features
 
+def _many_style(vals):
+    """'str-many' / 'float-many' / 'sparse-int-many' when the values form >= 20 groups of >= 2 members each
+    and are strings / floats / integers spread over more than 100 x their number; else None"""
+    cnt = {}
+    for v in vals:
+        cnt[str(v)] = cnt.get(str(v), 0) + 1
+    if len(cnt) < 20 or min(cnt.values()) < 2:
+        return None
+    if all(isinstance(v, str) for v in vals):
+        return 'str-many'
+    if all(_is_float(v) for v in vals):
+        return 'float-many'
+    if all(_is_int(v) for v in vals) and max(vals) - min(vals) > 100 * len(vals):
+        return 'sparse-int-many'
+    return None
+
+
+def _long_selection(case, impl, rdm_axis):
+    """does some training set of the call hold >= 20 groups of that axis (a selection by >= 20 values)?"""
+    vals = _axis(case, 'rdm' if rdm_axis else 'pat')[0]
+    key = 'rows' if rdm_axis else 'conds'
+    parts = [f['train'] for f in impl.get('folds', []) if f.get('train')] if case['kind'] == 'sets' \
+        else impl.get('fit', [])
+    for p_ in parts:
+        try:
+            if len(set(str(vals[q]) for q in p_[key])) >= 20:
+                return True
+        except (IndexError, TypeError, KeyError):
+            continue
+    return False
+
+
 def _n_groups(case, which):
     return len(set(map(str, _axis(case, which)[0])))
 
@@ -1389,6 +1442,15 @@ def features(case, impl):
         br.append('copies:pattern')
     if any(isinstance(v, str) for v in rvals + pvals):
         br.append('labels:str')
+    # round 7: many groups (>= 20) with >= 2 members each whose labels are not small-range integers, on an
+    # axis the generator splits, in a call that is not rejected and that lists >= 20 values in a selection
+    if isinstance(impl, dict) and 'exc' not in impl and 'skip' not in impl:
+        for vals_, on_ in ((rvals, case['rdm']['by'] == 'g' and g not in ('k_fold_pattern', 'of_k_pattern',
+                                                                         'loo_pattern')),
+                           (pvals, case['pat']['by'] == 'g' and g not in RDM_ONLY)):
+            st_ = _many_style(vals_) if on_ else None
+            if st_ and _long_selection(case, impl, vals_ is rvals):
+                br.append('labels:' + st_)
     nrg, npg = _n_groups(case, 'rdm'), _n_groups(case, 'pat')
     ks = [(prm.get('k_rdm'), nrg) if g in ('k_fold', 'k_fold_rdm') else None,
           (prm.get('k_pattern'), npg) if g == 'k_fold' else None,
@@ -1434,6 +1496,8 @@ def features(case, impl):
         else:
             br.append('cv:boot' if case.get('boot_pidx') is not None else 'cv:direct')
         br.append('cv:' + case['model']['type'])
+        if ok and any(b_.startswith('labels:') and b_.endswith('-many') for b_ in br):
+            br.append('cv:labels-many')
         if case['model'].get('fitter') and ok:
             br.append('fit:' + case['model']['fitter'])
         if ok and case['method'].endswith('_cov'):
@@ -1934,6 +1998,157 @@ def _gen_session_case(rng, with_cv=None):
     return case
 
 
+MANY_STYLES = ('str-many', 'float-many', 'sparse-int-many')
+
+
+def _many_pool(rng, style, n_groups):
+    """n_groups distinct labels that are not small-range integers (round 7): subject / stimulus ids as
+    strings (not in sorted order of creation, mixed width), floats (incl. negative and integral values),
+    or integers spread over a range far wider than the number of entries"""
+    if style == 'str-many':
+        stem = rng.choice(['sub-', 'S', 'stim_', ''])
+        width = rng.choice([0, 2, 3])
+        nums = rng.sample(range(1, 400), n_groups)
+        return [stem + (str(v).zfill(width) if width else str(v)) + rng.choice(['', '', 'a', 'B']) for v in nums]
+    if style == 'float-many':
+        return [v / 8.0 for v in rng.sample(range(-80, 4000), n_groups)]
+    return rng.sample(range(1000, 900000), n_groups)
+
+
+def _gen_many_axis(rng, style, n_groups):
+    """one axis grouped by 'g': n_groups groups (20-40) with 2-3 members each - sessions of a subject,
+    exemplars of a category, copies in a bootstrap sample -, members adjacent, interleaved or shuffled"""
+    pool = _many_pool(rng, style, n_groups)
+    if len(set(map(str, pool))) < n_groups:              # (string decoration made two ids equal)
+        pool = [p + '_' + str(i) if isinstance(p, str) else p for i, p in enumerate(pool)]
+    lab = [p for p in pool for _ in range(2)] + [rng.choice(pool) for _ in range(rng.randint(0, n_groups // 4))]
+    arr = rng.choice(['adjacent', 'interleaved', 'shuffled'])
+    if arr == 'interleaved':
+        lab = pool + [l for l in lab[::2][:n_groups]] + lab[2 * n_groups:]
+    elif arr == 'shuffled':
+        rng.shuffle(lab)
+    return {'n': len(lab), 'by': 'g', 'g': lab, 'index': None}
+
+
+def _small_axis(n):
+    return {'n': n, 'by': 'index', 'g': list(range(n)), 'index': None}
+
+
+def _gen_many_sets_case(rng, gen, style, kind='sets'):
+    """round 7: many groups (20-40) with string / float / sparse-integer labels and >= 2 members per group on
+    the axis the generator splits (for the two-axis generators: on one of them or on both); the other axis
+    and the RDMs are tiny.  Fold counts / group sizes are chosen so that at least one selection handed to
+    RDMs.subset / subset_pattern lists >= 20 values"""
+    split_r = gen in ('k_fold', 'k_fold_rdm', 'of_k_rdm', 'random', 'loo_rdm')
+    split_p = gen in ('k_fold', 'k_fold_pattern', 'of_k_pattern', 'random', 'loo_pattern')
+    cheap = kind == 'crossval'
+    if split_r and split_p:
+        # both axes large only for the generators alone: a two-axis cross-validation on 50 x 50 with its
+        # re-runs per fold costs the better part of a minute
+        which = rng.choice(['rdm', 'pat'] if cheap else ['rdm', 'pat', 'rdm', 'pat', 'both'])
+    else:
+        which = 'rdm' if split_r else 'pat'
+    ngr = rng.randint(24, 27 if cheap else 40)
+    if cheap and gen == 'loo_rdm':
+        ngr = rng.randint(21, 23)      # n folds x 2 re-runs x n fits: keep n small (selections of 20-22 values)
+    ngp = rng.randint(24, 26 if (cheap or which == 'both') else 32)
+    rax = _gen_many_axis(rng, style, ngr) if which in ('rdm', 'both') else _gen_axis(rng, rng.randint(2, 4), False)
+    pat = _gen_many_axis(rng, style, ngp) if which in ('pat', 'both') else _gen_axis(rng, rng.randint(3, 5), False)
+    if kind == 'crossval' and which == 'rdm':
+        pat = _gen_axis(rng, rng.randint(6, 8), False)
+    if gen in RDM_ONLY:
+        pat['by'] = 'index'
+    case = {'kind': kind, 'gen': gen, 'rdm': rax, 'pat': pat}
+    nrg, npg = _n_groups(case, 'rdm'), _n_groups(case, 'pat')
+    rnd = rng.random() < 0.5
+    prm = {'random': rnd}
+
+    def many_k(n, many):
+        if not many:
+            return rng.randint(1, min(n, 2))
+        # training selections of n - ceil(n / k) >= 20 values for most choices
+        return rng.choice([None, n, n, rng.randint(max(3, n // 6), n), rng.randint(4, 8)])
+
+    sizes = []
+    if gen == 'k_fold':
+        prm['k_rdm'], prm['k_pattern'] = many_k(nrg, which != 'pat'), many_k(npg, which != 'rdm')
+        if kind == 'crossval' or which == 'both':        # keep the number of folds (objects to decode) moderate
+            prm['k_rdm'] = min(prm['k_rdm'] or 5, 6 if which != 'both' else 4)
+            prm['k_pattern'] = min(prm['k_pattern'] or 5, 6 if which != 'both' else 4)
+            if which == 'both':         # 3-4 folds per axis keep selections of >= 20 of 24+ groups... only for
+                prm['k_rdm'] = max(prm['k_rdm'], 2)     # the larger axis; the other one is then the long one
+
+        kr = prm['k_rdm'] if prm['k_rdm'] is not None else 5
+        sizes = [nrg] + [npg] * max(kr, 1)
+    elif gen == 'k_fold_rdm':
+        prm['k_rdm'] = many_k(nrg, True)
+        if cheap and prm['k_rdm']:
+            prm['k_rdm'] = min(prm['k_rdm'], 8)
+        sizes = [nrg]
+    elif gen == 'k_fold_pattern':
+        prm['k'] = many_k(npg, True)
+        if cheap and prm['k']:
+            prm['k'] = min(prm['k'], 6)
+        sizes = [npg]
+    elif gen in ('of_k_rdm', 'of_k_pattern'):
+        n = nrg if gen == 'of_k_rdm' else npg
+        prm['k'] = rng.randint(1 if not cheap else 3, 4)
+        sizes = [n]
+    elif gen == 'random':
+        prm['n_cv'] = rng.randint(1, 2)
+        prm['n_rdm'] = rng.choice([None, rng.randint(1, 3)]) if which != 'pat' else rng.randint(0, nrg - 1)
+        prm['n_pattern'] = rng.choice([None, rng.randint(1, 3)]) if which != 'rdm' \
+            else rng.randint(0, max(0, npg - 3))
+        sizes = [nrg, npg] * prm['n_cv']
+    case['params'] = prm
+    if rnd or gen == 'random':
+        case['shuffle'] = _shuffle_spec(rng, case, sizes)
+    case['desc_form'] = rng.choice(['list', 'list', 'ndarray'])
+    case['many'] = {'style': style, 'axis': which}
+    return case
+
+
+def _gen_many_crossval_case(rng, gen, style):
+    """round 7: the cross-validated evaluation on the folds of such an object (cheap models and fitters;
+    per live fold the two perturbation re-runs as for every crossval case)"""
+    case = _gen_many_sets_case(rng, gen, style, kind='crossval')
+    nC = case['pat']['n']
+    mtype = rng.choice(['fixed', 'select', 'weighted', 'weighted'])
+    case['model'] = {'type': mtype, 'n_cond': nC, 'n_rdm': rng.randint(2, 3), 'seed': rng.randrange(10 ** 6),
+                     'g': list(case['pat']['g'])}
+    if mtype == 'weighted':
+        case['model']['fitter'] = 'regress'
+        case['model']['ridge'] = rng.choice([0.5, 1.0, 2.0])
+    case['glue'] = {'omit_ceil': rng.random() < 0.3, 'pdesc_default': rng.random() < 0.5,
+                    'fitter_form': rng.choice(['single', 'single', 'list', 'default'])}
+    case['values'] = 'random'
+    case['dseed'] = rng.randrange(10 ** 6)
+    case['pseed'] = rng.randrange(10 ** 6)
+    case['method'] = rng.choice(['cosine', 'corr'])
+    del case['desc_form']
+    case['extra_models'] = []
+    case['primary_pos'] = 0
+    return case
+
+
+MANY_CV_GENS = ('loo_rdm', 'k_fold_rdm', 'k_fold', 'k_fold_pattern', 'random', 'of_k_pattern')
+
+
+def _gen_many(rng, tier):
+    """the round-7 domain: every generator x the three label styles (sets), and crossval on a rotating
+    generator per style"""
+    rounds, cv_rounds = (1, 1) if tier == 'quick' else (8, 3)
+    for q in range(rounds):
+        for gi, gen in enumerate(GENS):
+            for si, style in enumerate(MANY_STYLES):
+                yield _gen_many_sets_case(rng, gen, style)
+    for q in range(cv_rounds):
+        for gi, gen in enumerate(MANY_CV_GENS):     # leave-one-group-out (n folds, n fits per re-run) once a round
+            yield _gen_many_crossval_case(rng, gen, MANY_STYLES[(gi + q) % 3])
+        for si, style in enumerate(MANY_STYLES):    # every style on the rdm axis through crossval, every round
+            yield _gen_many_crossval_case(rng, 'k_fold_rdm', style)
+
+
 def _gen_concat_case(rng):
     n = rng.randint(2, 9)
     s1 = [rng.randrange(n) for _ in range(rng.randint(1, 12))]
@@ -1985,8 +2200,10 @@ def generate(rng, tier):
     # round 4: reuse sessions (own PRNG stream derived from the run's, drawn last: the single-call cases of
     # a seed are the ones they were before)
     srng = _random.Random(rng.randrange(2 ** 32))
+    mrng = _random.Random(rng.randrange(2 ** 32))     # round 7: own stream, drawn after everything else
     for q in range(90 if tier == 'quick' else 1500):
         yield _gen_session_case(srng, with_cv=(q % 3 == 0))
+    yield from _gen_many(mrng, tier)
 
 
 def search(rng, tier):
@@ -1994,9 +2211,17 @@ def search(rng, tier):
     cross-validation experiment come early"""
     n = 400 if tier == 'quick' else 4000
     srng = _random.Random(rng.randrange(2 ** 32))
+    mrng = _random.Random(rng.randrange(2 ** 32))
     for q in range(n):
         r = q % 4
-        if q % 8 == 5:
+        if q % 8 == 1:            # round 7: many groups with string / float / sparse-integer labels
+            j = q // 8
+            if j % 6 == 5:
+                yield _gen_many_crossval_case(mrng, MANY_CV_GENS[(j // 6) % len(MANY_CV_GENS)],
+                                              MANY_STYLES[(j // 6) % 3])
+            else:
+                yield _gen_many_sets_case(mrng, GENS[j % len(GENS)], MANY_STYLES[(j // len(GENS) + j) % 3])
+        elif q % 8 == 5:
             yield _gen_session_case(srng, with_cv=(q % 24 == 5))
         elif r == 3:
             yield _gen_crossval_case(rng)
@@ -2072,6 +2297,7 @@ def _check_sets(case, out):
     rvals, _ = _axis(case, 'rdm')
     pvals, _ = _axis(case, 'pat')
     nR, nC = len(rvals), len(pvals)
+    pair_pos = {p_: q_ for q_, p_ in enumerate(_pairs(nC))}
     if len(train) != len(test) or (ceil is not None and len(ceil) != len(test)):
         return _viol('numbers of training, test and ceiling sets differ',
                      [len(train), len(test), None if ceil is None else len(ceil)], 'equal', **feat)
@@ -2107,7 +2333,7 @@ def _check_sets(case, out):
         for a, r in enumerate(rows):
             for b, (x, y) in enumerate(_pairs(len(conds))):
                 i, j = conds[x], conds[y]
-                want = base[r][_pairs(nC).index((min(i, j), max(i, j)))] if i != j else None
+                want = base[r][pair_pos[(min(i, j), max(i, j))]] if i != j else None
                 got = d[a, b]
                 if (want is None) != bool(np.isnan(got)) or (want is not None and float(want) != float(got)):
                     return None, _viol(f'{name} set {q}: stored dissimilarity is not the input value of '
@@ -2203,6 +2429,15 @@ def _oracle_crossval(case):
             return _viol('cross-validated evaluation raises on the folds of a call inside the documented domain',
                          res['exc'], 'one evaluation per fold', exc=res['exc'], part='crossval', **feat)
         return None      # rejected call: the property is silent
+    if case.get('bootcv') is None and case.get('boot_pidx') is None:
+        # round 7: the folds a direct cross-validation is run on are the generator's: they must satisfy the
+        # first sentence of the property themselves (a member of a held-out group inside the training set is
+        # not "test-only" for the perturbation experiment below, which takes the split as handed out)
+        bad = _oracle_sets(case)
+        if bad is not None:
+            bad['what'] = 'folds of the cross-validated evaluation: ' + bad['what']
+            bad['features'] = dict(bad['features'], part='sets', model=case['model']['type'])
+            return bad
     if not res['calls_match']:
         return _viol('the fitter / comparison is not called once per evaluable fold',
                      [len(res['fit']), len(res['cmp'])], len(res['live']), **feat)
